@@ -215,7 +215,16 @@ func main() {
 		simErr := sim.Run(func() { runErr = conf.run(false, true) })
 		verifsim.MapHook = nil
 		rep.Steps += sim.Steps
-		d := digest(outDir) + fmt.Sprintf("\nerr=%v sim=%v failures=%v", runErr, simErr, sim.Failures)
+		// of a panic only the message counts: a stack trace the program attaches to
+		// it names goroutine numbers and addresses that differ from run to run
+		var failures []string
+		for _, f := range sim.Failures {
+			line, _, _ := strings.Cut(f, "\n")
+			failures = append(failures, line)
+		}
+		errLine := fmt.Sprint(runErr)
+		errLine, _, _ = strings.Cut(errLine, "\n")
+		d := digest(outDir) + fmt.Sprintf("\nerr=%v sim=%v failures=%v", errLine, simErr, failures)
 		d = strings.ReplaceAll(d, outDir, "<out>")
 		os.RemoveAll(outDir)
 		rep.Schedules++
